@@ -11,7 +11,7 @@ import hashlib, os, re, subprocess, sys, fcntl, shutil
 from concurrent.futures import ThreadPoolExecutor
 
 VERIF = os.path.dirname(os.path.dirname(os.path.abspath(__file__)))
-BUILD = os.path.join(VERIF, ".build")
+BUILD = os.environ.get("VERIF_BUILD") or os.path.join(VERIF, ".build")
 REPO = os.environ.get("VERIF_REPO", "/repo")
 GUARD = "LIBCSD_VERIF"
 
